@@ -77,14 +77,14 @@ Print n_in_domain.
    instantiated with THAT entry point's parameter set (0 user: params.UserVerifyTxn,
    1 peer: Config.UnconfirmedVerifyTxn, 2 block creation: Config.CreateBlockVerifyTxn);
    a transaction failing the hard rules is reported hard by every entry point *)
-Definition c_entry := (Z * (Z * error) * Z * list uxin * list txout * dist * (vparams * vparams * vparams) * res verdict)%type.
+Definition c_entry := (Z * (Z * error) * Z * list uxin * list txout * dist * (vparams * vparams * vparams) * error * res verdict)%type.
 Definition pick_params (entry : Z) (ps : vparams * vparams * vparams) : vparams :=
   let '(pu, pn, pc) := ps in if entry =? 0 then pu else if entry =? 1 then pn else pc.
 Definition pf_entry := Eval vm_compute in
-  failing (fun c : c_entry => let '(entry, size, T, ins, outs, d, ps, obs) := c in
+  failing (fun c : c_entry => let '(entry, size, T, ins, outs, d, ps, pre, obs) := c in
     let p := pick_params entry ps in
     negb (in_domain size T ins outs d p) ||
-    let hard_ok := pool_hours_ok T ins outs && coins_ok ins outs in
+    let hard_ok := negb (is_err pre) && pool_hours_ok T ins outs && coins_ok ins outs in
     let spec := soft_spec (is_err (snd size)) (fst size) T ins outs d p in
     match obs with
     | Panic => false
